@@ -68,6 +68,7 @@ txn ApplicationArgs 0; byte "ipay2"; ==; bnz ipay2
 txn ApplicationArgs 0; byte "acreate"; ==; bnz acreate
 txn ApplicationArgs 0; byte "icall"; ==; bnz icall
 txn ApplicationArgs 0; byte "log"; ==; bnz dolog
+txn ApplicationArgs 0; byte "aparams"; ==; bnz aparams
 txn ApplicationArgs 0; byte "reject"; ==; bnz reject
 txn ApplicationArgs 0; byte "err"; ==; bnz doerr
 b ok
@@ -129,6 +130,9 @@ icall:
 dolog:
  txn ApplicationArgs 1; log
  global Round; itob; log
+ b ok
+aparams:
+ txn Assets 0; asset_params_get AssetTotal; assert; itob; log
  b ok
 reject:
  int 0; return
@@ -890,6 +894,71 @@ func (w *c20World) one(t *rapid.T, kind string) []transactions.Transaction {
 	return []transactions.Transaction{tx}
 }
 
+// xref submits CROSS-TYPE references: an application call whose ForeignApps lists an existing ASSET id (plus an id that
+// does not exist) and whose ForeignAssets lists an existing APP id - legal, unused references - followed by something
+// that needs the asset's creator (opt-in, reconfiguration by the manager, asset_params_get); or a call whose tx.Access
+// names an existing APP id as an asset, followed by a call of that app. Follower in the same group or in the next
+// group (same block in the pool pipeline; the prefetcher's task de-duplication is per block and keyed without the
+// creatable type, the evaluator's creator cache is keyed with it).
+func (w *c20World) xref(t *rapid.T) {
+	variant := rapid.SampledFrom([]string{"optin", "optin", "acfg", "aparams", "app-as-asset"}).Draw(t, "xrefVariant")
+	sameGroup := rapid.Bool().Draw(t, "xrefSameGroup")
+	first := w.hdr(t, rapid.IntRange(0, 3).Draw(t, "xrefCaller"))
+	first.LastValid += 3
+	first.Type = protocol.ApplicationCallTx
+	first.ApplicationID = w.app
+	first.ApplicationArgs = [][]byte{[]byte("log"), []byte("xref")}
+	second := w.hdr(t, rapid.IntRange(0, c20NUsers-1).Draw(t, "xrefUser"))
+	second.LastValid += 3
+	if variant == "app-as-asset" {
+		first.Access = []transactions.ResourceRef{{Asset: basics.AssetIndex(w.app2)}, {Asset: 777_777}, {App: basics.AppIndex(w.asset)}}
+		second.Type = protocol.ApplicationCallTx
+		second.ApplicationID = w.app2
+		second.ApplicationArgs = [][]byte{[]byte("gput"), []byte("x"), []byte("ref")}
+	} else {
+		first.ForeignApps = []basics.AppIndex{basics.AppIndex(w.asset)}
+		if rapid.Bool().Draw(t, "xrefMissing") {
+			first.ForeignApps = append(first.ForeignApps, 999_999)
+		}
+		first.ForeignAssets = []basics.AssetIndex{basics.AssetIndex(w.app2), 888_888}
+		switch variant {
+		case "optin": // (again, for a holder: a zero transfer to oneself, also fetches the creator)
+			second.Type = protocol.AssetTransferTx
+			second.XferAsset, second.AssetReceiver = w.asset, second.Sender
+		case "acfg":
+			second.Sender = c20Addrs[0] // creator and manager
+			second.Type = protocol.AssetConfigTx
+			second.ConfigAsset = w.asset
+			second.AssetParams = basics.AssetParams{Manager: c20Addrs[0]}
+		case "aparams":
+			second.Type = protocol.ApplicationCallTx
+			second.ApplicationID = w.app
+			second.ApplicationArgs = [][]byte{[]byte("aparams")}
+			second.ForeignAssets = []basics.AssetIndex{w.asset}
+		}
+	}
+	var groups []c20Group
+	place := "next-group"
+	if sameGroup {
+		place = "same-group"
+		groups = []c20Group{w.sign([]transactions.Transaction{first, second})}
+	} else {
+		groups = []c20Group{w.sign([]transactions.Transaction{first}), w.sign([]transactions.Transaction{second})}
+	}
+	res := "ok"
+	for _, g := range groups {
+		w.known = append(w.known, g)
+		err := w.pool.Remember(g)
+		w.infra(err)
+		if err != nil {
+			res = "rej:" + ClassifyTxPoolError(err)
+			w.tracef("Remember xref %s %s -> %v", variant, place, err)
+		}
+	}
+	w.vk.Label("xref:" + variant + ":" + place + ":" + res)
+	w.tracef("Remember xref:%s %s -> %s", variant, place, res)
+}
+
 func (w *c20World) group(t *rapid.T) (c20Group, string) {
 	n := rapid.SampledFrom([]int{1, 1, 1, 2, 3}).Draw(t, "groupSize")
 	var txs []transactions.Transaction
@@ -977,7 +1046,14 @@ func (w *c20World) submit(t *rapid.T) {
 	t0 := time.Now()
 	defer func() { w.msSubmit += time.Since(t0).Milliseconds() }()
 	n := rapid.IntRange(2, 9).Draw(t, "nSubmit")
+	xrefAt := -1
+	if rapid.IntRange(0, 2).Draw(t, "xref") != 0 {
+		xrefAt = rapid.IntRange(0, n-1).Draw(t, "xrefAt")
+	}
 	for i := 0; i < n; i++ {
+		if i == xrefAt {
+			w.xref(t)
+		}
 		var g c20Group
 		var kinds string
 		if len(w.known) > 0 && rapid.IntRange(0, 9).Draw(t, "resubmit") == 0 {
